@@ -17,7 +17,7 @@ def HistSorted (h : List HWrite) : Prop := h.Pairwise (fun a b => a.rev < b.rev)
 /-- Specification lemma: applying the events (R, R'] to the snapshot at R yields the snapshot at R'. -/
 theorem apply_events_snapshot (h : List HWrite) (hs : HistSorted h) (R R' : Nat) (hR : R ≤ R') :
     (eventsBetween h (R + 1) R').foldl Snap.apply (snapshotAt h R) = snapshotAt h R' := by
-  sorry
+  exact snapshot_events h hs R R' hR
 
 /-- Restricting to a key range commutes with applying events: a client that lists `[a, b)` and
 watches the same range reconstructs exactly the range at R'. -/
@@ -25,7 +25,7 @@ theorem apply_events_range (h : List HWrite) (hs : HistSorted h) (R R' : Nat) (h
     ((eventsBetween h (R + 1) R').filter (fun w => p w.key)).foldl Snap.apply
         ((snapshotAt h R).filter (fun e => p e.1)) =
       (snapshotAt h R').filter (fun e => p e.1) := by
-  sorry
+  rw [foldl_apply_filter, snapshot_events h hs R R' hR]
 
 /-- Sequential client requests (no storage faults). -/
 inductive Op where
@@ -64,12 +64,74 @@ def OpsOK (ops : List Op) : Prop :=
 /-- An empty backend whose revision counter starts at `init`. -/
 def fresh (init cache : Nat) : BState := { ring := Ring.new cache, dealt := init, committed := init }
 
+/-! Bridge to `KB.Lemmas.Hist`: every request is one `HStep`, so a request sequence is a `Run`. -/
+
+/-- the value a request writes (`none` = deletion) -/
+def Op.val : Op → Option Bytes
+  | .create _ v => some v
+  | .update _ v _ => some v
+  | .delete _ _ => none
+
+theorem runOp_step (c : Cfg) (sh : BState × List HWrite) (op : Op) :
+    HStep sh (runOp c sh op) op.key op.val := by
+  obtain ⟨s, h⟩ := sh
+  cases op with
+  | create k v =>
+    have hs := doCreate_shape c s k v
+    simp only [runOp, Op.key, Op.val]
+    generalize doCreate c s k v [] = res at *
+    obtain ⟨r, s'⟩ := res
+    cases r <;>
+      exact HStep.of_shape hs (some v) rfl (by simp) (by intro v' hv; cases hv; rfl) _
+        (by intro r hr; cases hr <;> rfl) (by intro hno; first | exact absurd rfl (hno _) | rfl)
+  | update k v e =>
+    have hs := doUpdate_shape c s k v e
+    simp only [runOp, Op.key, Op.val]
+    generalize doUpdate c s k v e [] = res at *
+    obtain ⟨r, s'⟩ := res
+    cases r <;>
+      exact HStep.of_shape hs (some v) rfl (by simp) (by intro v' hv; cases hv; rfl) _
+        (by intro r hr; cases hr <;> rfl) (by intro hno; first | exact absurd rfl (hno _) | rfl)
+  | delete k e =>
+    have hs := doDelete_shape c s k e
+    simp only [runOp, Op.key, Op.val]
+    generalize doDelete c s k e [] = res at *
+    obtain ⟨r, s'⟩ := res
+    cases r <;>
+      exact HStep.of_shape hs none rfl (by simp) (by intro v' hv; cases hv) _
+        (by intro r hr; cases hr <;> rfl) (by intro hno; first | exact absurd rfl (hno _) | rfl)
+
+theorem run_foldl (c : Cfg) (init cache : Nat) (ops : List Op) (hok : OpsOK ops) (n : Nat)
+    (sh : BState × List HWrite) (hr : Run init cache n sh) :
+    Run init cache (n + ops.length) (ops.foldl (runOp c) sh) := by
+  induction ops generalizing n sh with
+  | nil => exact hr
+  | cons op ops ih =>
+    have hop := hok op (List.mem_cons_self ..)
+    have hv : op.val ≠ some tombstone := by
+      cases op with
+      | create k v => intro h; cases h; exact hop.2.1 k _ rfl rfl
+      | update k v e => intro h; cases h; exact hop.2.2 k _ e rfl rfl
+      | delete k e => intro h; cases h
+    have := ih (fun o ho => hok o (List.mem_cons_of_mem _ ho)) (n + 1) (runOp c sh op)
+      (.step hr (runOp_step c sh op) hop.1 hv)
+    simp only [List.foldl_cons, List.length_cons]
+    rw [show n + (ops.length + 1) = n + 1 + ops.length by omega]
+    exact this
+
+theorem run_runOps (c : Cfg) (init cache : Nat) (ops : List Op) (hok : OpsOK ops) :
+    Run init cache ops.length (runOps c (fresh init cache) ops) := by
+  have := run_foldl c init cache ops hok 0 (fresh init cache, []) .zero
+  simpa [runOps] using this
+
 /-- The history of acknowledged writes is sorted by revision, and the committed revision has caught up. -/
 theorem hist_sorted (c : Cfg) (init cache : Nat) (ops : List Op) (hok : OpsOK ops)
     (hb : init + ops.length < 2 ^ 64) :
     HistSorted (runOps c (fresh init cache) ops).2 ∧
     (runOps c (fresh init cache) ops).1.committed = init + ops.length := by
-  sorry
+  have _ := hb
+  have hr := (run_runOps c init cache ops hok).basic
+  exact ⟨hr.2.2.1, hr.2.1⟩
 
 /-- Store refines history: a point read at any revision R (init ≤ R) returns exactly what the
 snapshot of the acknowledged writes at R holds for that key. -/
@@ -79,7 +141,8 @@ theorem store_refines_history (c : Cfg) (init cache : Nat) (ops : List Op) (hok 
     (match bget c sh.1.store k R with
      | .found v m => some (v, m)
      | .notFound _ => none) = (snapshotAt sh.2 R).get k := by
-  sorry
+  intro sh
+  exact (run_runOps c init cache ops hok).read hb c k hk R hR hR2
 
 /-- One event per acknowledged write, same revision as the stored version, in revision order:
 the events handed to the watch cache are exactly the history. -/
@@ -89,6 +152,7 @@ theorem events_are_history (c : Cfg) (init cache : Nat) (hcache : 0 < cache) (op
     sh.1.ring.window.map (fun e => (e.rev, e.key)) = sh.2.map (fun w => (w.rev, w.key)) ∧
     (∀ e ∈ sh.1.ring.window, ∀ w ∈ sh.2, e.rev = w.rev →
         (w.val = none ↔ e.verb = .delete) ∧ (∀ v, w.val = some v → e.val = v)) := by
-  sorry
+  have _ := hb; have _ := hcache
+  exact (run_runOps c init cache ops hok).events hfit
 
 end KB.C06
